@@ -483,7 +483,8 @@ BASE_TRUSTED = [
 
 
 def write_evidence(ctx, lean, violations, extra=None, assumptions=None, level="proof"):
-    os.makedirs(os.path.join(VERIF, "evidence"), exist_ok=True)
+    evdir = os.environ.get("VERIF_EVIDENCE_DIR", os.path.join(VERIF, "evidence"))  # (tools/eval_seeded.py redirects it)
+    os.makedirs(evdir, exist_ok=True)
     nthm = len(lean.get("theorems", []))
     discharged = len([n for n in lean.get("theorems", []) if n in lean.get("axioms", {}) and n not in lean.get("bad_axioms", {})]) if lean.get("ok") else 0
     axioms_used = sorted({a for ax in lean.get("axioms", {}).values() for a in ax})
@@ -519,7 +520,7 @@ def write_evidence(ctx, lean, violations, extra=None, assumptions=None, level="p
         "wall_s": round(ctx.elapsed(), 2),
         "violations": int(violations),
     }
-    path = os.path.join(VERIF, "evidence", f"{ctx.prop}.json")
+    path = os.path.join(evdir, f"{ctx.prop}.json")
     with open(path, "w") as f:
         json.dump(ev, f, indent=1, default=str)
     return path
